@@ -113,7 +113,7 @@ theorem freshId_w (h : List Tgt) : Pres (W h) freshId :=
 theorem setClosed_w (h : List Tgt) : Pres (W h) setClosed := modA_w h _
 theorem setStopping_w (h : List Tgt) : Pres (W h) setStopping := modA_w h _
 theorem setRestarting_w (h : List Tgt) : Pres (W h) setRestarting := modA_w h _
-theorem clearRestarting_w (h : List Tgt) : Pres (W h) clearRestarting := modA_w h _
+theorem clearRestarting_w (h : List Tgt) (b : Bool) : Pres (W h) (clearRestarting b) := modA_w h _
 theorem setLoopStop_w (h : List Tgt) (b : Bool) : Pres (W h) (setLoopStop b) := modA_w h _
 theorem setSocketEvent_w (h : List Tgt) (b : Bool) : Pres (W h) (setSocketEvent b) := modA_w h _
 theorem setSockReady_w (h : List Tgt) (b : Bool) : Pres (W h) (setSockReady b) := modA_w h _
